@@ -318,3 +318,39 @@ class RenderGroup:
             defs.append((name, origin, term, defaults))
             info[name] = {'origin': origin, 'lines': len(textwrap.dedent(inspect.getsource(fn)).splitlines())}
         return py2mini.render(defs, refs), info
+
+
+# ---------------------------------------------------------------- group `renderset` (bld-render5): SetRenderer, EnumRenderer
+# Its own generated file (coq/Gen/SrcRenderSet.v) so that group `render` and its proofs are untouched.  `sum` and `sorted` are
+# primitives here (Model/PrimsRenderSet.v); generator expressions are translated as list comprehensions (py2mini).
+SET_PRIMS = PRIMS + ('builtins.sum', 'builtins.sorted')
+
+
+def spec_renderset():
+    from beanquery import query_render as qr
+    if qr.EnumRenderer.__mro__[1:3] != (qr.ObjectRenderer, qr.ColumnRenderer):
+        raise Untranslatable('EnumRenderer no longer derives from ObjectRenderer < ColumnRenderer')
+    for m in ('__init__', 'update', 'prepare'):
+        if m in qr.EnumRenderer.__dict__:
+            raise Untranslatable(f'EnumRenderer overrides {m}')
+    if qr.SetRenderer.__mro__[1] is not qr.ColumnRenderer:
+        raise Untranslatable('SetRenderer no longer derives directly from ColumnRenderer')
+    if 'prepare' in qr.SetRenderer.__dict__:
+        raise Untranslatable('SetRenderer overrides prepare')
+    q = 'beanquery.query_render'
+    return [
+        ('render_enum_format', qr.EnumRenderer.__dict__['format'], f'{q}.EnumRenderer.format', False),
+        ('render_set_init_tail', qr.SetRenderer.__dict__['__init__'],
+         f'{q}.SetRenderer.__init__ without its first statement `super().__init__(ctx)`', 'tail'),
+        ('render_set_update', qr.SetRenderer.__dict__['update'], f'{q}.SetRenderer.update', False),
+        ('render_set_format', qr.SetRenderer.__dict__['format'], f'{q}.SetRenderer.format', False),
+        # the sort key of InventoryRenderer.format (a staticmethod: a plain function of the position)
+        ('render_inv_sortkey', _plain(qr.InventoryRenderer.__dict__['positionsortkey']),
+         f'{q}.InventoryRenderer.positionsortkey', False),
+    ]
+
+
+def _plain(f):
+    if not isinstance(f, staticmethod):
+        raise Untranslatable('InventoryRenderer.positionsortkey is no longer a staticmethod')
+    return f.__func__
